@@ -82,5 +82,5 @@ def main(tier, seed):
                       "cross product of a local-part pool and a domain pool (host names of every TLD class, IDN, literals, junk), "
                       "0-3 '@' at every position, local-part length 60-69 in 4 shapes, repository corpus + mutations, random "
                       "bytes; every address in 4 modes x tld off/on, high- and low-level API, plus 12 'rfc changed after setup' "
-                      "probes and 16 'setup m1 then setup m2' probes per address; distinct = distinct addresses",
+                      "probes and 16 'setup m1 then setup m2' probes per address; addresses with a 2^31-byte local part (-O2 build); distinct = distinct addresses",
                       {"builds": cx.builds_info()})
